@@ -215,3 +215,55 @@ def runCR (toks : List String) : String :=
   | _, _, _, _, _ => "err parse"
 
 end Slab
+
+/-! ### wind files: per time step a header record (time, date and — newer files — the stagger flag), one
+record per layer for U then V, and a one-word dummy record -/
+namespace Wind
+open Words
+
+structure WStep where
+  time : Word
+  date : Word
+  stag : Option Word
+  slabs : List (List Word)        -- U(layer 1), V(layer 1), U(layer 2), …
+deriving Repr, DecidableEq
+
+def header (s : WStep) : List Word :=
+  match s.stag with
+  | some g => [s.time, s.date, g]
+  | none => [s.time, s.date]
+
+def stepRecords (s : WStep) : List (List Word) := header s :: (s.slabs ++ [[0]])
+
+def records (steps : List WStep) : List (List Word) := (steps.map stepRecords).flatten
+
+def encode (steps : List WStep) : List Word := encodeRecs (records steps)
+
+end Wind
+
+namespace Slab
+open Wire Words
+
+def parseWStep (s : String) : Option Wind.WStep :=
+  match s.splitOn ":" with
+  | [t, d, g, sl] => match parseHexWord t, parseHexWord d with
+    | some t, some d =>
+      let stag := if g = "_" then some none else (parseHexWord g).map some
+      match stag with
+      | some st => (if sl = "-" then some [] else (sl.splitOn ",").mapM parseWords).map (fun l => ⟨t, d, st, l⟩)
+      | none => none
+    | _, _ => none
+  | _ => none
+
+/-- `bin wind-enc steps=<t:d:stag|_:slab,slab>|…` -/
+def runWind (toks : List String) : String :=
+  let kv := toks.filterMap (fun t => match t.splitOn "=" with
+    | [k, v] => some (k, v)
+    | _ => none)
+  match (kv.find? (·.1 == "steps")).map (·.2) with
+  | some st => (match (if st = "-" then some [] else (st.splitOn "|").mapM parseWStep) with
+     | some steps => "ok " ++ showWords (Wind.encode steps)
+     | none => "err parse-steps")
+  | none => "err parse"
+
+end Slab
